@@ -23,7 +23,7 @@ for sid in ids:
     finally:
         shutil.rmtree(d, ignore_errors=True)
     print(rows[-1], flush=True)
-with open(f"{root}/REGRESSION.md", "w") as f:
+with open(f"{root}/REGRESSION.md" if not sys.argv[1:] else "/tmp/REGRESSION_partial.md", "w") as f:
     f.write("# Seeded changes re-run against the current checks\n\nEach kept change applied to a scratch copy of `/repo/src` (HEAD), quick tier of the check recorded in its meta.json.\n\n| seed | check | result | seconds |\n|---|---|---|---|\n")
     for r in rows: f.write("| %s | %s | %s | %d |\n" % r)
     f.write(f"\n{sum(1 for r in rows if 'exit=1' in r[2])} of {len(rows)} detected.\n")
